@@ -20,7 +20,7 @@ PROPS = {
     "C02": {"level": "other"},
     "C03": {"level": "other"},
     "C05": {"level": "other"},
-    "C14": {"level": "other"},
+    "C14": {"level": "exploration"},
     "C17": {"level": "other"},
     "C18": {"level": "other"},
     "C13": {"level": "exploration"},
